@@ -425,11 +425,11 @@ def extra_coverage(tier):
 
 PARTS = [
     make_sweep("lengths", sweep_configs, sweep_dispatch),
-    Part("resize", check_resize, {"quick": 8000, "thorough": 160000}, strategy=st_resize),
-    Part("flip", check_flip, {"quick": 2500, "thorough": 40000}, strategy=st_flip),
-    Part("circshift", check_circshift, {"quick": 3500, "thorough": 60000}, strategy=st_circshift),
-    Part("downup", check_downsample, {"quick": 5000, "thorough": 100000}, strategy=st_downsample),
-    Part("blocks", check_blocks, {"quick": 7000, "thorough": 150000}, strategy=st_blocks),
+    Part("resize", check_resize, {"quick": 32000, "thorough": 160000}, strategy=st_resize),
+    Part("flip", check_flip, {"quick": 10000, "thorough": 40000}, strategy=st_flip),
+    Part("circshift", check_circshift, {"quick": 14000, "thorough": 60000}, strategy=st_circshift),
+    Part("downup", check_downsample, {"quick": 20000, "thorough": 100000}, strategy=st_downsample),
+    Part("blocks", check_blocks, {"quick": 28000, "thorough": 150000}, strategy=st_blocks),
 ]
 
 # thorough tier: the same Hypothesis tests driven by atheris/libFuzzer (coverage on sigpy.util/linop/block)
